@@ -17,6 +17,7 @@ package l4wireguard
 import (
 	"bytes"
 	"encoding/binary"
+	"errors"
 	"io"
 	"strconv"
 
@@ -133,6 +134,9 @@ type MessageInitiation struct {
 }
 
 func (msg *MessageInitiation) FromBytes(src []byte) error {
+	if len(src) != MessageInitiationBytesTotal {
+		return ErrIncorrectSourceBytesTotal
+	}
 	buf := bytes.NewBuffer(src)
 	if err := binary.Read(buf, MessageBytesOrder, &msg.Type); err != nil {
 		return err
@@ -194,6 +198,9 @@ type MessageTransport struct {
 }
 
 func (msg *MessageTransport) FromBytes(src []byte) error {
+	if len(src) < MessageTransportBytesMin {
+		return ErrIncorrectSourceBytesTotal
+	}
 	buf := bytes.NewBuffer(src)
 	if err := binary.Read(buf, MessageBytesOrder, &msg.Type); err != nil {
 		return err
@@ -233,6 +240,10 @@ var (
 
 var (
 	MessageBytesOrder = binary.LittleEndian
+
+	// ErrIncorrectSourceBytesTotal is returned by FromBytes when the source
+	// has a length the message cannot have.
+	ErrIncorrectSourceBytesTotal = errors.New("incorrect number of source bytes")
 )
 
 // Refs:
